@@ -88,14 +88,23 @@ def key_variants(hs, s):
 
 
 def new_grid(hs, ver, given):
-    cols = [('id', []), ('v', [('unit', 'x')]), ('l', [])]
+    cols = [('v', [('unit', 'x')]), ('l', []), ('id', [])]
     if given:
-        return hs.Grid(version=ver, metadata={'m': 1, 'n': 'meta'}, columns=cols)
-    return hs.Grid(metadata={'m': 1, 'n': 'meta'}, columns=cols)
+        g = hs.Grid(version=ver, metadata={'n': 'meta', 'm': 1}, columns=cols)
+    else:
+        g = hs.Grid(metadata={'n': 'meta', 'm': 1}, columns=cols)
+    # columns and metadata are ORDERED, and their order is not the order they were stored in: a derived grid has
+    # them in the order the grid has them now
+    g.column.add_item('id', g.column['id'], index=0)
+    g.metadata.add_item('m', 1, index=0)
+    g.column['v'].add_item('kind', 'Number', index=0)
+    return g
 
 
 def shape(g):
-    return (str(g.version), list(g.metadata.items()), [(k, list(v.items())) for k, v in g.column.items()])
+    # (read through the keys, in the grid's own order)
+    return (str(g.version), [(k, g.metadata[k]) for k in g.metadata.keys()],
+            [(k, [(t, g.column[k][t]) for t in g.column[k].keys()]) for k in g.column.keys()])
 
 
 def arg(x):
